@@ -8,6 +8,7 @@ writer asks for indentation."""
 from __future__ import annotations
 
 import ast
+import copy
 
 from .. import anchors as A
 from ..model import AnalysisError, Project, call_name, kwarg, local_values, walk_local
@@ -231,10 +232,19 @@ def check(P: Project, R: Report) -> None:
                 from ..consteval import NotConstant as _NC, fold as _fold
 
                 kwname = f.node.args.kwarg.arg if f.node.args.kwarg is not None else "kwargs"
+                class _Locals(ast.NodeTransformer):
+                    def visit_Name(self, n_):
+                        if isinstance(n_.ctx, ast.Load) and n_.id != kwname:
+                            d_ = through_local(n_)
+                            if d_ is not n_:
+                                return self.visit(copy.deepcopy(d_))
+                        return n_
+
                 for g_ in guards:
+                    test_ = _Locals().visit(copy.deepcopy(g_.test))  # `indent = kwargs.get("indent"); if indent:` reads the same request
                     for label_, env_, want_ in (("indent=None", {kwname: {"indent": None}}, False), ("no indent keyword", {kwname: {}}, False)):
                         try:
-                            got_ = bool(_fold(P, f.module, g_.test, local=env_))
+                            got_ = bool(_fold(P, f.module, test_, local=env_))
                         except _NC as e_:
                             raise AnalysisError(f"{mod.rel}:{g_.lineno}: the test that selects OPT_INDENT_2 (`{ast.unparse(g_.test)[:60]}`) cannot be read off for {label_} ({e_})")
                         R.ob("R2", f"{fname}: with {label_} no indentation option is selected", got_ is want_, f"{mod.rel}:{g_.lineno}",
